@@ -25,7 +25,7 @@ ASSUMPTIONS = ['hyperframe masks setting ids with 0xFF when serialising: ids > 2
                'update_settings', 'duplicate ids inside one received frame are not generated '
                '(hyperframe keeps only the last)']
 TIERS = {'quick': {'cases': 5000, 'size': 64},
-         'thorough': {'cases': 500000, 'size': 64}}
+         'thorough': {'cases': 2000000, 'size': 64}}
 
 IDS = list(range(0, 11)) + [255, 256, 0xFFFF]
 VALUES = [0, 1, 2, 3, 2**14 - 1, 2**14, 2**14 + 1, 2**24 - 1, 2**24, 2**31 - 1,
